@@ -270,6 +270,16 @@ def synthetic_zones(rng, tier):
        types=[(-17762, 0, 0), (-18000, 0, 4), (-14400, 1, 8), (-18000, 0, 8)])
     mk("syn_type0used", b"STD5", times=[t0, 100000000, 110000000, 120000000], idx=[1, 2, 0, 1],
        types=[(-18000, 0, 4), (-18000, 0, 4), (-14400, 1, 8)])
+    # old-style files in which type 0 is used by a transition and the candidate rules for the
+    # before-first-transition type disagree (outside wf_ast: compared with the model only)
+    mk("syn_type0_dstfirst", b"STD5", times=[t0, 100000000, 110000000, 120000000], idx=[2, 1, 0, 1],
+       types=[(-18000, 0, 4), (-18000, 0, 4), (-14400, 1, 8)])
+    mk("syn_type0_isdst", b"STD5", times=[t0, 100000000, 110000000, 120000000], idx=[2, 0, 1, 2],
+       types=[(-14400, 1, 8), (-17762, 0, 0), (-18000, 0, 4)])
+    # type 0 is DST and is the first transition's type: the default type is the standard type 1,
+    # and the first transition is a real, reported change
+    mk("syn_type0_dst_first", b"<-03>3", times=[-1000000000, -990000000, -970000000, -960000000], idx=[0, 1, 0, 1],
+       types=[(-7200, 1, 4), (-10800, 0, 0)], ab=b"-03\0-02\0")
     mk("syn_late", b"STD5DST,M3.2.0,M11.1.0", times=[t0, 4102444800 * 3], idx=[1, 2])
     return out
 
